@@ -2,12 +2,16 @@
 
 pub mod common;
 pub mod c01;
+pub mod c03;
+pub mod c04;
+pub mod c12;
+pub mod c13;
 
 use crate::report::{Ctx, RunReport, Violation};
 use crate::spec::ScenarioSpec;
 use crate::Tier;
 
-pub const CLAIMED: &[&str] = &["C01"];
+pub const CLAIMED: &[&str] = &["C01", "C03", "C04", "C12", "C13"];
 
 /// Number of runs in the quick tier (thorough is wall-clock budgeted).
 pub fn quick_runs(prop: &str) -> u64 {
@@ -20,6 +24,10 @@ pub fn quick_runs(prop: &str) -> u64 {
 pub fn gen(prop: &str, seed: u64, tier: Tier) -> ScenarioSpec {
     match prop {
         "C01" => c01::gen(seed, tier),
+        "C03" => c03::gen(seed, tier),
+        "C04" => c04::gen(seed, tier),
+        "C12" => c12::gen(seed, tier),
+        "C13" => c13::gen(seed, tier),
         _ => panic!("unknown property {}", prop),
     }
 }
@@ -54,6 +62,10 @@ pub fn meta(prop: &str) -> Meta {
 fn dispatch(spec: &ScenarioSpec, ctx: &mut Ctx) -> Result<(), Violation> {
     match spec.property.as_str() {
         "C01" => c01::run(spec, ctx),
+        "C03" => c03::run(spec, ctx),
+        "C04" => c04::run(spec, ctx),
+        "C12" => c12::run(spec, ctx),
+        "C13" => c13::run(spec, ctx),
         p => panic!("unknown property {}", p),
     }
 }
